@@ -41,12 +41,12 @@ def oracle(ck, extended):
         J = rng.randint(1, 3 if q else 5)
         H = rng.randint(2, 40); W = rng.randint(2, 40)
         x = gen.float_tensor(ck.nprng, (rng.randint(1, 2), rng.randint(1, 2), H, W), rng.choice([1.0, 100.0]))
-        oracle_fwd(ck, b, s, bt, qt, J, x, '%s/%s' % (b, s))
+        rt.guard(ck, oracle_fwd, ck, b, s, bt, qt, J, x, '%s/%s' % (b, s))
     for it in range((30 if q else 300) * (3 if extended else 1)):
         bt = OD.int_biort(rng, gen); qt = OD.int_qshift(rng, gen)
         J = rng.randint(1, 3)
         x = gen.int_tensor(rng, (1, rng.randint(1, 2), rng.randint(2, 22), rng.randint(2, 22)), amp=3)
-        oracle_fwd(ck, bt, qt, bt, qt, J, x, 'integer filters')
+        rt.guard(ck, oracle_fwd, ck, bt, qt, bt, qt, J, x, 'integer filters')
 
 
 def run(ck):
